@@ -54,11 +54,16 @@ CheckMap(e) ==
                           [] e.map[f] = 0  -> RowIs(row, N, sel0, e.cw, W)
                           [] e.map[f] = 1  -> RowIs(row, N, sel1, e.cw, W)
       rows == <<e.ow[1], e.ow[2], e.cwt[1], e.cwt[2]>>
+      \* the value of function f is the configured-weight mean over the realizations its filter selects
+      setOf(f) == CASE e.map[f] = -1 -> S [] e.map[f] = 0 -> sel0 \ F [] e.map[f] = 1 -> sel1 \ F
+      den(f) == SumTo([i \in 1..N |-> IF i \in setOf(f) THEN e.cw[i] ELSE 0], N)
+      num(f) == SumTo([i \in 1..N |-> IF i \in setOf(f) THEN e.cw[i] * e.cols[f][i] ELSE 0], N)
   IN IF mustFail THEN (IF e.outcome \in {"toofew", "nofunctions"} THEN "ok" ELSE "empty_selection_outcome")
      ELSE IF S = {} THEN (IF e.outcome \in {"toofew", "nofunctions"} THEN "ok" ELSE "empty_success_set_outcome")
      ELSE IF e.outcome # "ok" THEN "outcome_not_ok"
      ELSE IF \E f \in 1..4 : e.map[f] # -1 /\ ~Expect(f, rows[f]) THEN "mapped_row_not_filter_weights"
      ELSE IF \E f \in 1..4 : e.map[f] = -1 /\ ~Expect(f, rows[f]) THEN "unmapped_row_not_configured_weights"
+     ELSE IF \E f \in 1..4 : den(f) > 0 /\ ~ObsEq(e.fvals[f], <<num(f), den(f)>>) THEN "function_value_not_the_mean_over_its_own_selection"
      ELSE "ok"
 
 Check(e) == IF e.ev = "Sort" THEN CheckSort(e) ELSE CheckMap(e)
